@@ -114,6 +114,25 @@ def werr : WErr → String
 
 def renderOld (s : WState) (w : World) (e : Elem) : String := WDump.elemW (w.conts.length + 2) w e
 
+/-- one token of an `HST` line (handle bookkeeping of the implementation, hooks
+    `VerifArrayHasParentUpdater` / `VerifMapHasParentUpdater` / `VerifArrayMutableElementIndex`):
+    `<h>:<parentUpdater set>[:<mutableElementIndex, sorted by rendered value ID>]`, rendered from
+    the model's `hinfo` / `mutIdx` for the handle number the implementation's token names -/
+def hstToken (s : WState) (tok : String) : String :=
+  let hs := (tok.splitOn ":").headD ""
+  match hs.toNat?.bind (AList.find? s.handles) with
+  | none => s!"{hs}:?unknown-handle"
+  | some vid =>
+    match s.w.cont? vid with
+    | none => s!"{hs}:?no-container"
+    | some c =>
+      let u := if (AList.find? s.w.hinfo vid).isSome then "1" else "0"
+      match c with
+      | .map _ => s!"{hs}:{u}"
+      | .arr _ =>
+        let es := ((s.w.idxOf vid).map (fun e => (e.1.render, e.2))).mergeSort (fun a b => !(b.1 < a.1))
+        s!"{hs}:{u}:" ++ ",".intercalate (es.map (fun e => s!"{e.1}={e.2}"))
+
 def applyOp (s : WState) (name : String) (fs : List (String × String)) (lineNo : Nat) : WState :=
   let s := { s with rep := { s.rep with ops := s.rep.ops + 1 } }
   let h := (fnat fs "h").getD 0
@@ -219,6 +238,12 @@ def stepLine (s : WState) (line : String) (lineNo : Nat) : WState :=
       let s := { s with rep := { s.rep with compared := s.rep.compared + 1 } }
       if mine == theirs then s
       else s.note s!"line {lineNo}: FULL differs\n  model: {mine}\n  impl : {theirs}"
+  | "HST" :: rest =>
+    let mine := " ".intercalate (rest.map s.hstToken)
+    let theirs := " ".intercalate rest
+    let s := { s with rep := { s.rep with compared := s.rep.compared + 1 } }
+    if mine == theirs then s
+    else s.note s!"line {lineNo}: HST (parent callbacks / mutableElementIndex) differs\n  model: {mine}\n  impl : {theirs}"
   | "COMMIT" :: _ => { s with pending := ["OBS ok"] }
   | "REOPEN" :: _ => { s with w := s.w.reopen }
   | "FORGET" :: rest =>
